@@ -8,7 +8,8 @@ Oracle: RefState(sexp.read(op.apply(state).serialize())) == refsem.successor(...
 (so the frame condition is included).  Attribution: DESIGN §2.4.
 """
 from ..bridge import guard, Raised, parse_domain, operator, observe_state
-from ..core import Prog, ref_applicable, ref_successor, UNDEF, ILL, INCONS, same_state, show
+from ..core import Prog, ref_applicable, ref_successor, UNDEF, ILL, INCONS, show
+from ..core import same_state as _same_state
 from ..gens import vdom
 from ..permsched import installed, explore, Sched
 from ..refsem import RefState
@@ -54,6 +55,10 @@ def check_case(case):
     act = pg.S.actions["a"]
     changed = False
     succ_kinds = set()
+    exact = "inexact" not in case.get("tags", [])  # non-dyadic constants: fluent values at 1e-9 relative tolerance
+
+    def same_state(a, b):
+        return _same_state(a, b, exact=exact)
 
     def judge(got, s_succ, p_succ, args, st, order):
         if isinstance(got, RefState) and same_state(got, s_succ):
